@@ -1,5 +1,7 @@
 pub mod cli;
+pub mod decode;
 pub mod framing;
+pub mod once;
 pub mod pure;
 pub mod robust;
 pub mod srv;
@@ -303,6 +305,25 @@ pub fn property(id: &str) -> Option<Property> {
             })],
             hang: HangPolicy::Inconclusive,
         },
+        "C10" => Property {
+            id: "C10",
+            level: "exploration",
+            rule: "proptest histories of 1..40 operations over {submit (future-, CallbackSession- or FfiChannel-style, any of 4 handles, valid and invalid requests), advance virtual time, enable, disable, set-decode, shutdown, clone handle, drop handle, drop the caller's future, abort the task, peer garbage, peer EOF, peer read error} x 0..3 scripted connections (genuine / exception / wrong-id / wrong-function replies, partial replies, garbage, EOF, read errors, failing writes) x queue capacity 1..16 x consecutive-timeout limit, on the production ClientLoop driven by an outer loop of the same shape as the channel tasks (wait-for-enable, connect, run, fail-requests-for-delay). Oracle: completion ledger - exactly one completion per request the handle accepted (at most one for requests refused at the handle or cancelled by the caller), and every error is justified by the history: Shutdown only after a shutdown request / last handle drop / abort / task end, NoConnection never inside a connected session, ResponseTimeout exactly at transmission + timeout, Io(kind) only for an injected kind, values/exceptions only for transmitted requests, BadRequest/Internal never for valid requests; the task ends once all handles are gone. Non-trivial = a shutdown/disable/abort/EOF/error/handle-drop lands while one request is in flight and at least one more is pending.",
+            assumptions: SIM_ASSUMPTIONS_CLI,
+            searches: vec![Box::new(Search {
+                name: "c10_histories",
+                rule: "see property rule",
+                quick: 150_000,
+                thorough: 4_000_000,
+                strategy: once::arb_c10,
+                check: once::check_c10,
+                floors: &[("disruption_with_inflight_and_queued", 0.10), ("res:no_connection", 0.30), ("res:ok", 0.15), ("res:timeout", 0.10), ("res:shutdown", 0.10), ("refused_at_handle", 0.05)],
+                known: &[],
+                hang_secs: 120,
+                max_threads: 64,
+            })],
+            hang: HangPolicy::Inconclusive,
+        },
         "C11" => Property {
             id: "C11",
             level: "exploration",
@@ -346,6 +367,39 @@ pub fn property(id: &str) -> Option<Property> {
                 hang_secs: 120,
                 max_threads: 64,
             })],
+            hang: HangPolicy::Inconclusive,
+        },
+        "C20" => Property {
+            id: "C20",
+            level: "exploration",
+            rule: "proptest: cases drawn from the C01/C08 (server) and C11/C12 (client) generators, each executed at decode level nothing, at the highest level, at a generated level, and with a level change injected at a generated position of the script (server: ServerHandle::set_decode_level, also between two reads of one frame; client: Channel::set_decode_level queued between requests), with the formatting subscriber installed. Oracle (metamorphic): byte-identical wire transcripts (with virtual timestamps where the scripts are identical), identical results and completion instants, identical handler/authorization logs, state and end reasons. Non-trivial = the change lands while a frame is half received (server) / while requests are queued or outstanding (client).",
+            assumptions: SIM_ASSUMPTIONS_SRV,
+            searches: vec![
+                Box::new(Search {
+                    name: "c20_server",
+                    rule: "server role",
+                    quick: 25_000,
+                    thorough: 600_000,
+                    strategy: decode::arb_c20_srv,
+                    check: decode::check_c20_srv,
+                    floors: &[("change:mid_frame", 0.10), ("has_replies", 0.50)],
+                    known: &[],
+                    hang_secs: 120,
+                    max_threads: 64,
+                }),
+                Box::new(Search {
+                    name: "c20_client",
+                    rule: "client role",
+                    quick: 25_000,
+                    thorough: 600_000,
+                    strategy: decode::arb_c20_cli,
+                    check: decode::check_c20_cli,
+                    floors: &[("change:while_requests_queued", 0.30)],
+                    known: &[],
+                    hang_secs: 120,
+                    max_threads: 64,
+                }),
+            ],
             hang: HangPolicy::Inconclusive,
         },
         _ => return None,
@@ -398,4 +452,4 @@ const SIM_ASSUMPTIONS_CLI: &[&str] = &[
     "the byte-count field of read replies is not part of the statement's acceptance conditions: accepted-with-the-encoded-values and rejected are both allowed (counted)",
 ];
 
-pub const ALL: &[&str] = &["C01", "C02", "C03", "C04", "C05", "C06", "C07", "C08", "C11", "C12", "C17"];
+pub const ALL: &[&str] = &["C01", "C02", "C03", "C04", "C05", "C06", "C07", "C08", "C10", "C11", "C12", "C17", "C20"];
